@@ -165,6 +165,7 @@ func runCheck(repo, verif, prop string, thorough, verbose, writeEvidence, update
 		extra        []*Clause
 		closure      bool // pulled in because a target applies this function's contract (all its obligations count)
 		closureExtra bool // already a target; interface clauses used by another target were added
+		pkgAdded     bool // pulled in by the package rule: its functional obligations count, its safety obligations stay with C19
 	}
 	var targets []target
 	var missing []string
@@ -182,6 +183,34 @@ func runCheck(repo, verif, prop string, thorough, verbose, writeEvidence, update
 			continue
 		}
 		targets = append(targets, target{fn: fn, fc: fc})
+	}
+	// Property tags are written by hand; what a property depends on is not always a callee of something tagged (a function
+	// value, shared browser state, a configuration object). Every contract of a package that holds a tagged contract is
+	// therefore part of the property's check as well.
+	if os.Getenv("GCV_NO_PKG_CLOSURE") == "" && !sweepProps[prop] {
+		pk := map[string]bool{}
+		have := map[*ssa.Function]bool{}
+		for _, t := range targets {
+			pk[fnPkgPath(t.fn)] = true
+			have[t.fn] = true
+		}
+		for _, key := range sortedKeys(eng.specs.funcs) {
+			fc := eng.specs.funcs[key]
+			if fc.Assumed || fc.Trusted || fc.Pkg == "" || !pk[fc.Pkg] || strings.HasPrefix(fc.Name, "funcval ") {
+				continue
+			}
+			fn := eng.lookupFunc(fc.Pkg, fc.Name)
+			if fn == nil {
+				if !contains(missing, fc.Pkg+"::"+fc.Name) {
+					missing = append(missing, fc.Pkg+"::"+fc.Name)
+				}
+				continue
+			}
+			if !have[fn] {
+				have[fn] = true
+				targets = append(targets, target{fn: fn, fc: fc, closure: true, pkgAdded: true})
+			}
+		}
 	}
 	// implementations of interface contracts
 	seenT := map[*ssa.Function]bool{}
@@ -271,6 +300,9 @@ func runCheck(repo, verif, prop string, thorough, verbose, writeEvidence, update
 		run.results = append(run.results, res)
 		run.canaries = append(run.canaries, res.Canary)
 		for _, o := range res.Obls {
+			if t.pkgAdded && o.Kind == "safety" && !contains(o.Props, prop) {
+				continue
+			}
 			if t.closure || contains(o.Props, prop) {
 				run.obls = append(run.obls, o)
 			} else if t.closureExtra && strings.HasPrefix(o.Label, "iface:") {
